@@ -119,7 +119,7 @@ def install_dispatch_probe():
             types = tuple(ba.arguments["types"])
             given = ba.arguments["lines"]
             lines = list(given)
-            ba.arguments["types"], ba.arguments["lines"] = types, _same_kind(given, lines)
+            ba.arguments["lines"] = _same_kind(given, lines)  # `types` is handed on as the caller gave it (list, tuple, ...), not as our tuple
             a, k = ba.args, ba.kwargs
         except Exception:
             status["dispatch"] = "bind failed"
